@@ -364,4 +364,38 @@ theorem setReplaceRoot_spec : ∀ (payload : List (String × Node)) (orig : AMap
         AMap.get?_insert_ne _ _ (Ne.symm (hk' (k, v) (List.mem_cons_self ..)))]
 
 
+
+theorem indexOf2_drop (a b : Char) : ∀ (l : List Char) (i : Nat), indexOf2 a b l = some i →
+    ∃ rest, l.drop i = a :: b :: rest
+  | [], _, h => by simp [indexOf2] at h
+  | [_], _, h => by simp [indexOf2] at h
+  | x :: y :: rest, i, h => by
+    simp only [indexOf2] at h
+    split at h
+    · rename_i hxy; cases h; exact ⟨rest, by simp [hxy.1, hxy.2]⟩
+    · cases hr : indexOf2 a b (y :: rest) with
+      | none => simp [hr] at h
+      | some j =>
+        simp only [hr, Option.some.injEq] at h
+        subst h
+        obtain ⟨r, hr'⟩ := indexOf2_drop a b (y :: rest) j hr
+        exact ⟨r, by simpa using hr'⟩
+
+/-- the `closeIdx > 0` guard is the same as `closeIdx != -1`: the text searched starts with `{{` -/
+theorem possiblyTemplate_iff (s : String) :
+    possiblyTemplate s = true ↔
+      ∃ i, indexOf2 '{' '{' s.toList = some i ∧ (indexOf2 '}' '}' (s.toList.drop i)).isSome = true := by
+  simp only [possiblyTemplate]
+  cases ho : indexOf2 '{' '{' s.toList with
+  | none => simp
+  | some i =>
+    obtain ⟨rest, hd⟩ := indexOf2_drop _ _ _ _ ho
+    simp only [Option.some.injEq, exists_eq_left']
+    rw [hd]
+    simp only [indexOf2]
+    have : ¬ ('{' = '}' ∧ '{' = '}') := by decide
+    simp only [if_neg this]
+    cases indexOf2 '}' '}' ('{' :: rest) <;> simp
+
+
 end Ytk.PD
